@@ -298,6 +298,52 @@ func largeEntries() {
 	}
 }
 
+// storesUnderDoneContext: a Set whose context is already cancelled (or expires at once) returns - with nil or with an
+// error, that is its business - and THEN another Set for the same URL stores a newer bundle and returns nil. Whatever
+// the first call did or still does, a read started after the second write returned must not yield the first bundle:
+// nothing of a call that has returned may land later.
+func storesUnderDoneContext() {
+	n := r.N(6, 60)
+	big := make([]int64, n)
+	small := make([]int64, n)
+	lib.Parallel(n, 8, func(i int) { big[i], small[i] = mint(3<<20, false), mint(900, false) }, nil)
+	dir := filepath.Join(scratch, "done-ctx")
+	c, err := crl.NewFileCache(dir)
+	if err != nil {
+		panic(err)
+	}
+	for i := 0; i < n; i++ {
+		u := fmt.Sprintf("http://crl.example/done-ctx/%d.crl", i)
+		dctx, cancel := context.WithCancel(ctx)
+		if i%2 == 0 {
+			cancel()
+		} else {
+			var c2 context.CancelFunc
+			dctx, c2 = context.WithTimeout(ctx, time.Millisecond)
+			defer c2()
+		}
+		err1 := c.Set(dctx, u, bundle(big[i]))
+		cancel()
+		if err2 := c.Set(ctx, u, bundle(small[i])); err2 != nil {
+			r.Violation(map[string]string{"kind": "set-error", "monitor": "done-context"}, fmt.Sprintf("a plain Set after a Set under a done context failed: %v", err2), nil)
+			continue
+		}
+		r.Eval(fmt.Sprintf("done-ctx|%d", i))
+		r.Event("stores-under-a-done-context")
+		for poll := 0; poll < 8; poll++ { // reads over ~400 ms after the second write returned
+			b, gerr := c.Get(ctx, u)
+			id, ok, es := hist.Classify(bundleDir, b, gerr)
+			if id != small[i] || !ok {
+				r.Violation(map[string]string{"kind": "stale-read", "monitor": "done-context"},
+					fmt.Sprintf("Set(done context, bundle %d) returned (%v), then Set(bundle %d) returned nil; a read started %d ms later yields %d (bytes ok=%v %s)", big[i], err1, small[i], poll*50, id, ok, es), nil)
+				break
+			}
+			time.Sleep(50 * time.Millisecond)
+		}
+	}
+	os.RemoveAll(dir)
+}
+
 // ---------------------------------------------------------------- monitor 2
 
 func stressCrossProcess() {
@@ -401,6 +447,16 @@ func (s *sched) hook(point, path string) {
 	<-w.grant
 }
 
+// awaitStep waits for a writer to arrive at its next hook point (bounded: a writer that never arrives must not hang the run).
+func awaitStep(ch chan string) (string, bool) {
+	select {
+	case p := <-ch:
+		return p, true
+	case <-time.After(20 * time.Second):
+		return "", false
+	}
+}
+
 // orders enumerates all interleavings of counts[i] steps of writer i.
 func orders(counts []int) [][]int {
 	total := 0
@@ -502,12 +558,24 @@ func stepBoundaries() {
 			<-ready
 		}
 		at := make([]int, nw)
+		stuck := false
 		for i := range ws {
-			p := <-ws[i].arrived
+			p, ok := awaitStep(ws[i].arrived)
+			if !ok {
+				stuck = true
+				break
+			}
 			hits[p]++
 			if p != points[0] {
 				r.Inconclusive("step exploration: first hook point was " + p)
 			}
+		}
+		if stuck {
+			// the hook points are no longer reached on the goroutine that called Set (the scheduler tells writers apart by
+			// goroutine): the step schedules cannot be driven; the other monitors do not depend on this
+			r.Event("step-exploration-abandoned-hooks-not-on-the-calling-goroutine")
+			r.Extra["step_exploration"] = "abandoned: a writer did not reach its first hook point on the goroutine that called Set within 20 s"
+			return
 		}
 		useProc := r.Thorough() || pi%5 == 0
 		check := func(step int) {
@@ -542,7 +610,12 @@ func stepBoundaries() {
 		for step, w := range pl.order {
 			ws[w].grant <- struct{}{}
 			if at[w] < 3 {
-				p := <-ws[w].arrived
+				p, ok := awaitStep(ws[w].arrived)
+				if !ok {
+					r.Event("step-exploration-abandoned-hooks-not-on-the-calling-goroutine")
+					r.Extra["step_exploration"] = "abandoned mid-schedule: a granted writer did not reach its next hook point within 20 s"
+					return
+				}
 				hits[p]++
 				at[w]++
 				if points[at[w]] != p {
@@ -1089,6 +1162,7 @@ func main() {
 	}
 	timed("hammer", hammer)
 	timed("large-entries", largeEntries)
+	timed("stores-under-a-done-context", storesUnderDoneContext)
 	timed("crash-by-strace", crashByStrace)
 	timed("faults-by-strace", faultsByStrace)
 	timed("faults-by-file-size-limit", faultsByFileSizeLimit)
